@@ -25,6 +25,12 @@ claim("C06",
       "termination and the size limits on the input paths are added as their contracts discharge (see evidence).",
       "DESIGN.md §4 C06")
 
+claim("C19",
+      "Proof, at every site, that a private torrent takes no peers from DHT or PEX, starts no DHT announcer, starts no "
+      "PEX sender and refuses to export a magnet link; whole-program whitelists pin the functions that may reach those "
+      "sites. Partial: behaviour of the DHT library and the encodings of the private flag are outside.",
+      "DESIGN.md §4 C19")
+
 na("C10", "liveness/progress over unbounded schedules of several goroutines: a function contract cannot state fairness or progress measures (DESIGN.md §4 C10)")
 na("C20", "data races and lock-ups quantify over schedules; the contracts are sequential and assume the single-owner discipline C20 asks to prove (DESIGN.md §4 C20)")
 for p in ["C01", "C02", "C04", "C05", "C06", "C07", "C08", "C09", "C11", "C12", "C13", "C14", "C15", "C17", "C18", "C19"]:
